@@ -16,7 +16,7 @@
 (*         "F"      Fortran-ordered (np.asfortranarray)                       *)
 (*         "T"      built by transposing a Hessian: owns its data, strides    *)
 (*                  permuted, neither C- nor F-contiguous                     *)
-(*         "view"   non-contiguous slice of a larger buffer (big[::2])        *)
+(*         "view"   non-contiguous slice of a larger buffer (big[:, ::2])     *)
 (*         "sub"    contiguous view into a larger buffer (does not own data)  *)
 (*         "list"   nested Python lists                                       *)
 (*         "f32"    float32 ndarray: must be converted (value class "f32":    *)
@@ -66,8 +66,9 @@ Spec == Init /\ [][Next]_vars
 Logged == "dtok" \in DOMAIN cur
 Ok(u) == u.status = "ok"
 
-ImplAllLayoutsLogged == /\ Required \subseteq {Key(u) : u \in r.runs}
-                        /\ Cardinality({Key(u) : u \in r.runs}) = Cardinality(r.runs)
+ImplAllLayoutsLogged ==
+  pc = "done" => /\ Required \subseteq {Key(u) : u \in r.runs}
+                 /\ Cardinality({Key(u) : u \in r.runs}) = Cardinality(r.runs)
 (* legitimate array_likes are accepted; only float32 may be refused instead of converted *)
 ImplAccepted == Logged => (cur.status = "refused" => (cur.mem = "f32" /\ cur.arg = "fc"))
 (* the reported D is the lattice Fourier sum of the VALUES ... *)
@@ -75,7 +76,7 @@ ImplDIsTheSeriesOfTheValues == Logged => ((Ok(cur) /\ cur.vclass = "exact") => c
 (* ... and two runs with the same kernel and the same values report the same matrix,      *)
 (* whatever the memory layout, carrier type or route                                     *)
 ImplDIsAFunctionOfValuesOnly ==
-  \A u, v \in r.runs : (Ok(u) /\ Ok(v) /\ SpecReport(u) = SpecReport(v)) => (u.dtok = v.dtok /\ u.dtok # 0)
+  pc = "done" => \A u, v \in r.runs : (Ok(u) /\ Ok(v) /\ SpecReport(u) = SpecReport(v)) => (u.dtok = v.dtok /\ u.dtok # 0)
 (* the logged run is the machine's report: same token as every other run with that report *)
 ConformsLayoutReport ==
   Logged => (Ok(cur) => \A v \in r.runs : (Ok(v) /\ SpecReport(v) = rep) => v.dtok = cur.dtok)
